@@ -676,7 +676,7 @@ func (x *Exec) loopHeader(h *ssa.BasicBlock, ci *cfgInfo, pre *State, reach Term
 			env.header = h
 			g, err := env.EvalBool(inv.Expr)
 			if err != nil {
-				u.Errorf("%s: invariant %q: %v", lname, inv.Text, err)
+				x.invariantError(lname, inv, err)
 				continue
 			}
 			u.AddObl(fmt.Sprintf("%s / invariant[%s] /entry", lname, clauseName(inv, i)), "invariant", inv.Text, reach, g, x.pos(loopPos(h)), x.prefix)
@@ -855,7 +855,7 @@ func (x *Exec) loopBack(h *ssa.BasicBlock, st *State, reach Term) {
 		env.header = h
 		g, err := env.EvalBool(inv.Expr)
 		if err != nil {
-			u.Errorf("%s: invariant %q (preserve): %v", lname, inv.Text, err)
+			x.invariantError(lname, inv, err)
 			continue
 		}
 		u.AddObl(fmt.Sprintf("%s / invariant[%s] /preserve", lname, clauseName(inv, i)), "invariant", inv.Text, reach, g, x.pos(loopPos(h)), x.prefix)
@@ -1410,4 +1410,18 @@ func sortedKeys(m map[interface{}]bool) []interface{} {
 		out[i] = e.k
 	}
 	return out
+}
+
+// invariantError: an invariant that names a local that no longer exists is contract drift (the
+// invariant is dropped and the drift reported), anything else is an engine error.
+func (x *Exec) invariantError(lname string, inv *Clause, err error) {
+	msg := err.Error()
+	if strings.Contains(msg, "unknown identifier") || strings.Contains(msg, "no field") || strings.Contains(msg, "unknown function") || strings.Contains(msg, "not a range") {
+		e := x.u.eng
+		e.driftMu.Lock()
+		e.drift[lname] = fmt.Sprintf("invariant %q: %s", trunc(inv.Text, 80), msg)
+		e.driftMu.Unlock()
+		return
+	}
+	x.u.Errorf("%s: invariant %q: %v", lname, inv.Text, err)
 }
